@@ -60,7 +60,8 @@ def expand(case):
     written = False
     for _ in range(case["len"]):
         k = rnd.choice(["new", "new", "new", "rename", "rename", "rename_old", "close", "edit", "edit",
-                        "eval", "write", "read", "read", "badname", "xref", "newbad"])
+                        "eval", "write", "read", "read", "badname", "xref", "newbad", "pandas", "shareval",
+                        "unshare"])
         if k == "new":
             ops.append({"op": "new", "name": rnd.choice(NAMES + [None])})
             nmodels += 1
@@ -85,6 +86,9 @@ def expand(case):
                         "rename_old": rnd.random() < 0.5})
         elif k == "newbad":
             ops.append({"op": "newbad", "name": rnd.choice(BAD[:3])})
+        elif k in ("pandas", "shareval", "unshare") and nmodels:
+            # one value object known to several models: bound to an IOSpec in some, a plain reference in others
+            ops.append({"op": k, "idx": rnd.randrange(nmodels), "how": rnd.choice(["rebind", "del"])})
         elif k == "xref" and nmodels > 1:
             a = rnd.randrange(nmodels)
             b = rnd.randrange(nmodels)
@@ -106,6 +110,8 @@ class Rec:
         self.inputs = {}
         self.xrefs = set()  # indices of models this one holds a reference into
         self.spaces = ["S"]
+        self.has_spec = False   # S.pdf = the shared value, bound to an IOSpec (relative path)
+        self.shv = False        # S.shv = the shared value as a plain reference
 
 
 def populate(m):
@@ -134,6 +140,7 @@ def live_values(m):
 
 def snap_other(m):
     d = snap_model(m, with_name=False)
+    d["iospecs"] = sorted((type(s_).__name__, str(s_.path)) for s_ in m.iospecs)
     d["refs"] = {k: v for k, v in d["refs"].items() if not k.startswith("xref")}
     return d
 
@@ -149,6 +156,8 @@ def run_case(case):
     kinds = []
     tmp = tempfile.mkdtemp(prefix="mxv_c19_")
     saved = None
+    import pandas as pd
+    shared = pd.DataFrame({"a": [1, 2, 3]})
 
     def V(kind, sig, **detail):
         vio.append({"kind": kind, "signature": sig, "detail": dict(detail, step=step, op=op)})
@@ -272,6 +281,30 @@ def run_case(case):
                     elif op["kind"] == "input":
                         m.S.c[1] = op["k"]
                         r.inputs[1] = op["k"]
+                elif o == "pandas":
+                    r = recs[op["idx"]]
+                    if not r.open or r.has_spec or r.shv:
+                        continue
+                    r.model.S.new_pandas("pdf", "data/p.csv", shared, "csv")
+                    r.has_spec = True
+                    touched.add(op["idx"])
+                elif o == "shareval":
+                    r = recs[op["idx"]]
+                    if not r.open or r.shv or r.has_spec:
+                        continue
+                    r.model.S.shv = shared
+                    r.shv = True
+                    touched.add(op["idx"])
+                elif o == "unshare":
+                    r = recs[op["idx"]]
+                    if not r.open or not r.shv:
+                        continue
+                    if op["how"] == "del":
+                        del r.model.S.shv
+                    else:
+                        r.model.S.shv = 0
+                    r.shv = False
+                    touched.add(op["idx"])
                 elif o == "xref":
                     r, t = recs[op["idx"]], recs[op["target"]]
                     if not (r.open and t.open):
@@ -289,7 +322,8 @@ def run_case(case):
                         shutil.rmtree(saved[0], ignore_errors=True)
                     p = os.path.join(tmp, "sv")
                     r.model.write(p, backup=False)
-                    saved = (p, r.model.name, {"k": r.k, "add": r.add, "inputs": dict(r.inputs)})
+                    saved = (p, r.model.name, {"k": r.k, "add": r.add, "inputs": dict(r.inputs),
+                                                "has_spec": r.has_spec, "shv": r.shv})
                 elif o == "read":
                     if not saved:
                         continue
@@ -297,6 +331,7 @@ def run_case(case):
                     m = mx.read_model(saved[0], name=op["name"]) if op["name"] else mx.read_model(saved[0])
                     r = Rec(m)
                     r.k, r.add, r.inputs = saved[2]["k"], saved[2]["add"], dict(saved[2]["inputs"])
+                    r.has_spec, r.shv = saved[2]["has_spec"], saved[2]["shv"]
                     recs.append(r)
                     if m.name != want:
                         V("read-name", "read_model did not get the requested name", want=want, got=m.name)
